@@ -4,20 +4,48 @@ use crate::ctx::Ctx;
 
 pub mod c01;
 pub mod c02;
+pub mod c03;
+pub mod c04;
+pub mod c05;
+pub mod c06;
+pub mod c07;
+pub mod c08;
+pub mod c09;
+pub mod c10;
+pub mod c11;
 pub mod c12;
+pub mod c13;
+pub mod c14;
 pub mod c15;
 pub mod c16;
 pub mod c17;
+pub mod c18;
+pub mod c19;
+pub mod c20;
 pub mod util;
 
 pub fn run(c: &mut Ctx) -> bool {
     match c.prop.as_str() {
         "C01" => c01::run(c),
         "C02" => c02::run(c),
+        "C03" => c03::run(c),
+        "C04" => c04::run(c),
+        "C05" => c05::run(c),
+        "C06" => c06::run(c),
+        "C07" => c07::run(c),
+        "C08" => c08::run(c),
+        "C09" => c09::run(c),
+        "C10" => c10::run(c),
+        "C11" => c11::run(c),
         "C12" => c12::run(c),
+        "C13" => c13::run(c),
+        "C14" => c14::run(c),
         "C15" => c15::run(c),
         "C16" => c16::run(c),
         "C17" => c17::run(c),
+        "C18" => c18::run(c),
+        "C19" => c19::run(c),
+        "C20" => c20::run(c),
         "selfcheck" => selfcheck(c),
         _ => return false,
     }
